@@ -202,6 +202,11 @@ def run(ctx):
     if h6_known and (not only or "replay" in only) and not any(h["key"] == H6_KEY for h in ctx.known_hits):
         print("NOTE: property=C13 known finding %s did not reproduce in this run" % H6_KEY, flush=True)
 
+    if not ctx.violations and not only:
+        # the durable log C13 recovers from is the real walstore: what it keeps and what its prune cleanup may
+        # remove (256 commits in one process life, heights spread over several logs) is decided by Wal.tla
+        ctx.include("C14", accept=lambda k: k.startswith(("wal-recover", "wal-restart", "crash:")),
+                    why="C13's recovery reads the real walstore: inputs durably recorded must come back after a crash (Wal.tla)")
     ctx.assumptions += [
         "a crash stops the process between two calls into its environment (WAL store, broadcasters, commit "
         "listener, timeout function); crashes INSIDE walstore.Flush and torn log tails are property C14's subject",
